@@ -166,39 +166,42 @@ def run(ctx):
     ev.run(dp, None)
     ctx.count("functions_folded")
     ds, memfp = T.atom("dsetname"), T.atom("memfp")
-    creates = [e for e in ev.events if e.callee == "method:create_dataset"]
-    resizes = [e for e in ev.events if e.callee == "method:resize"]
-    sets = [e for e in ev.events if e.callee == "setitem"]
     bdata = None
     for e in ev.events:
         if e.callee.endswith("frombuffer"):
             bdata = e.result
-    ok = len(creates) == 1
-    if ok:
-        kw = dict(creates[0].kwargs)
-        ms = kw.get("maxshape")
-        ok = ms == ("t", (T.NONE,)) and kw.get("shape") == ("attr", bdata, "shape") and creates[0].args[1] == ds
-        absent = [c for c, pol in creates[0].conds if (c[0] == "not" and c[1][0] == "in" and pol) or (c[0] == "in" and not pol)]
-        ok = ok and bool(absent)
-    ctx.decide(ok, "C12.blob", dp.ident, loc_of(dp, creates[0].node if creates else None),
-               "dataset created when absent, with the buffer's shape and maxshape=(None,) (resizable)",
-               "the checkpoint dataset is not created resizable with the buffer's shape when absent: a later checkpoint of a different size cannot be stored", disc="create")
-    okr = len(resizes) == 1
-    if okr:
-        r = resizes[0]
-        size = r.args[1] if len(r.args) > 1 else None
-        okr = size == ("t", (("attr", bdata, "size"),)) and any((c[0] == "cmp" and c[1] == "!=" and pol) or (c[0] == "cmp" and c[1] == "==" and not pol) for c, pol in r.conds) \
-            and r.args[0] == ("s", r.args[0][1], ds)
-    ctx.decide(okr, "C12.blob", dp.ident, loc_of(dp, resizes[0].node if resizes else None),
-               "existing dataset resized to the new buffer size whenever the sizes differ",
-               "an existing checkpoint dataset is not resized to the new payload size: a shorter payload leaves a stale suffix, a longer one is truncated or raises", disc="resize")
-    oks = len(sets) == 1
-    if oks:
-        b, idx, val = sets[0].args
-        oks = idx == ("slice", T.NONE, T.NONE, T.NONE) and val == bdata and b[0] == "s" and b[2] == ds and not sets[0].conds
-    ctx.decide(oks, "C12.blob", dp.ident, loc_of(dp, sets[0].node if sets else None),
-               "the whole buffer is stored with a full-slice assignment on every path",
-               "the pickled buffer is not written with an unconditional full-slice store of the whole buffer", disc="store")
+    # typestate of the dataset: whatever the file held before, the call leaves a dataset of the new length holding the new buffer
+    from . import blobstate
+    try:
+        bl = blobstate.Blob(dp)
+    except blobstate.Undecided as ex:
+        bl = None
+        ctx.unknown("C12.blob", dp.ident, loc_of(dp), str(ex), disc="state")
+    if bl is not None:
+        for case in blobstate.CASES:
+            try:
+                st = bl.run_case(case)
+            except blobstate.Undecided as ex:
+                ctx.unknown("C12.blob", dp.ident, loc_of(dp), f"[file before the call: {case}] {ex}", disc=case)
+                continue
+            except blobstate.Raises as ex:
+                ctx.refute("C12.blob", dp.ident, loc_of(dp), f"[file before the call: {case}] {ex}: the checkpoint is not written", disc=case)
+                continue
+            why = "no dataset is left in the file" if not st["exists"] else \
+                ("the dataset keeps its old length (a shorter payload leaves a stale suffix, a longer one is truncated or raises)" if st["rel"] != 0 else
+                 "the new payload is not stored: the file keeps the previous checkpoint (or an empty dataset), complete and loadable but stale")
+            ctx.decide(st["exists"] and st["rel"] == 0 and st["holds"], "C12.blob", dp.ident, loc_of(dp),
+                       f"[file before the call: {case}] afterwards the dataset exists, has the buffer's length and holds the whole buffer",
+                       f"[file before the call: {case}] {why}", disc=case)
+        ctx.floor("dataset operations interpreted in the blob writer", bl.n_effects, 3)
+        if bl.has_resize:
+            def _unbounded(e):
+                e = bl._res(e) if e is not None else None
+                return isinstance(e, ast.Tuple) and len(e.elts) == 1 and isinstance(bl._res(e.elts[0]), ast.Constant) and bl._res(e.elts[0]).value is None
+            nores = [c for c, kw in {id(c): (c, kw) for c, kw in bl.creates}.values() if not _unbounded(kw.get("maxshape"))]
+            ctx.decide(not nores, "C12.blob", dp.ident, loc_of(dp, nores[0] if nores else None),
+                       "the writer resizes an existing dataset, and every dataset it creates is resizable (maxshape=(None,))",
+                       "the writer resizes an existing dataset but creates it without maxshape=(None,): the second checkpoint of a different size raises", disc="resizable")
     okb = bdata is not None and any(s and s[0] == "f" and s[1] == "method:read" and s[2][0] == memfp for s in T.subterms(bdata))
     seeks = [e for e in ev.events if e.callee == "method:seek" and e.args[0] == memfp and e.args[1] == T.ZERO]
     ctx.decide(okb and bool(seeks), "C12.blob", dp.ident, loc_of(dp), "the buffer is the whole pickled stream (seek(0) then read())",
@@ -417,7 +420,9 @@ MUTANTS = [
     M("no resize on overwrite", _U, "elif bdata.size != target[dsetname].shape[0]:\n        target[dsetname].resize((bdata.size,))", "", "C12.blob"),
     M("resize only when growing", _U, "elif bdata.size != target[dsetname].shape[0]:", "elif bdata.size > target[dsetname].shape[0]:", "C12.blob"),
     M("dataset not resizable", _U, "dsetname, shape=bdata.shape, maxshape=(None,), dtype=bdata.dtype", "dsetname, shape=bdata.shape, dtype=bdata.dtype", "C12.blob"),
-    M("partial store", _U, "target[dsetname][:] = bdata", "target[dsetname][: bdata.size] = bdata", "C12.blob"),
+    M("equal-length payload not written (dataset replaced only when the size changes)", _U, "if dsetname not in target:\n        target.create_dataset(\n            dsetname, shape=bdata.shape, maxshape=(None,), dtype=bdata.dtype\n        )\n    elif bdata.size != target[dsetname].shape[0]:\n        target[dsetname].resize((bdata.size,))\n    target[dsetname][:] = bdata",
+      "if dsetname in target and target[dsetname].shape != bdata.shape:\n        del target[dsetname]\n    if dsetname not in target:\n        target.create_dataset(dsetname, data=bdata, maxshape=(None,))", "C12.blob"),
+    M("created empty, stored only on overwrite", _U, "elif bdata.size != target[dsetname].shape[0]:\n        target[dsetname].resize((bdata.size,))\n    target[dsetname][:] = bdata", "else:\n        if bdata.size != target[dsetname].shape[0]:\n            target[dsetname].resize((bdata.size,))\n        target[dsetname][:] = bdata", "C12.blob"),
     M("store only when sizes differ", _U, "target[dsetname].resize((bdata.size,))\n    target[dsetname][:] = bdata", "target[dsetname].resize((bdata.size,))\n        target[dsetname][:] = bdata", "C12.blob"),
     M("writer uses another dataset name", _SB, "state, h5_file, path=\"checkpoint\", dsetname=\"state\"", "state, h5_file, path=\"checkpoint\", dsetname=\"latest\"", "C12.route"),
     M("reader default group renamed", _A, "checkpoint_path: str = \"checkpoint\",", "checkpoint_path: str = \"checkpoints\",", "C12.route"),
@@ -445,6 +450,11 @@ NEUTRALS = [
     M("forced checkpoint positional", _B, "maybe_checkpoint(force=True)", "maybe_checkpoint(True)"),
     M("cadence disjuncts swapped", _B, "should_checkpoint = force or (\n                checkpoint_every is not None\n                and checkpoint_every > 0\n                and iterations % checkpoint_every == 0\n            )",
       "should_checkpoint = (\n                checkpoint_every is not None\n                and checkpoint_every > 0\n                and iterations % checkpoint_every == 0\n            ) or force"),
+    M("store bounded by the buffer size after the resize", _U, "target[dsetname][:] = bdata", "target[dsetname][: bdata.size] = bdata"),
+    M("dataset created from the data, stored again", _U, "dsetname, shape=bdata.shape, maxshape=(None,), dtype=bdata.dtype", "dsetname, data=bdata, maxshape=(None,)"),
+    M("dataset replaced rather than resized", _U, "if dsetname not in target:\n        target.create_dataset(\n            dsetname, shape=bdata.shape, maxshape=(None,), dtype=bdata.dtype\n        )\n    elif bdata.size != target[dsetname].shape[0]:\n        target[dsetname].resize((bdata.size,))\n    target[dsetname][:] = bdata",
+      "if dsetname in target:\n        del target[dsetname]\n    target.create_dataset(dsetname, data=bdata)"),
+    M("dataset through a local", _U, "target[dsetname][:] = bdata", "dset = target[dsetname]\n    dset[:] = bdata"),
     M("resize test mirrored", _U, "elif bdata.size != target[dsetname].shape[0]:", "elif target[dsetname].shape[0] != bdata.size:"),
 ]
 
